@@ -27,7 +27,7 @@ ASSUMPTIONS = [
 ]
 
 OPS = ["same", "other", "touch", "adv0.4", "adv1", "adv2.5", "plain", "etag", "lm", "both", "list-first", "list-mid", "list-last", "weak",
-       "weaklist", "star", "etag0", "lm0", "both0", "other-keepm", "list-empty", "list-comma"]
+       "weaklist", "star", "etag0", "lm0", "both0", "other-keepm", "list-empty", "list-comma", "etag-range", "lm-range"]
 MODS = ("same", "other", "touch", "other-keepm")
 
 
@@ -74,9 +74,9 @@ def set_zone(z):
     time.tzset()
 
 
-def run_history(ctx, vfs, iface, app, url_path, file_path, seq, start_frac, zone="UTC"):
+def run_history(ctx, vfs, iface, app, url_path, file_path, seq, start_frac, zone="UTC", epoch=1_000_000.0):
     set_zone(zone)  # HTTP dates are GMT whatever the server process's zone is
-    clock = 1_000_000.0 + start_frac
+    clock = epoch + start_frac  # the file clock is virtual: far in the past, or (clock skew, restored backups) ahead of the real one
     ver = [0]
     content = [b"AAAA"]
 
@@ -89,7 +89,7 @@ def run_history(ctx, vfs, iface, app, url_path, file_path, seq, start_frac, zone
 
     write(b"AAAA")
     resp = []
-    case = {"iface": iface, "target": url_path, "ops": list(seq), "start_fraction": start_frac, "process_time_zone": zone}
+    case = {"iface": iface, "target": url_path, "ops": list(seq), "start_fraction": start_frac, "process_time_zone": zone, "file_clock_epoch": epoch}
     modified_since_resp = False
     nontriv = False
     for step, op in enumerate(["plain"] + list(seq)):
@@ -130,6 +130,8 @@ def run_history(ctx, vfs, iface, app, url_path, file_path, seq, start_frac, zone
                     "list-last": [("If-None-Match", f'"zzz",{j["etag"]}')],
                     "list-empty": [("If-None-Match", f', {j["etag"]},' if step % 2 else f'"a", , {j["etag"]}')],  # empty list members are legal (RFC 7230 7)
                     "list-comma": [("If-None-Match", f'"foo,bar", {j["etag"]}')],  # a comma inside an entity-tag is legal (RFC 7232 2.3)
+                    "etag-range": [("If-None-Match", j["etag"]), ("Range", "bytes=0-")],  # validators come first: an unchanged file is 304 also for a range request
+                    "lm-range": [("If-Modified-Since", j["lm"]), ("Range", "bytes=0-")],
                     "weak": [("If-None-Match", "W/" + j["etag"])],
                     "weaklist": [("If-None-Match", f'"zzz", W/{j["etag"]}')],
                 }[base]
@@ -145,6 +147,12 @@ def run_history(ctx, vfs, iface, app, url_path, file_path, seq, start_frac, zone
             if exc is not None:
                 ctx.violation(f"exception|{type(exc).__name__}", case, f"step {step} {op}: {exc!r}")
                 return nontriv
+            if st == 206 and base.endswith("-range") and h.get("content-range") == f"bytes 0-{len(content[0]) - 1}/{len(content[0])}":
+                st = 200  # the whole file as one range: a full response for the purposes of this property
+                if method == "HEAD":
+                    body = content[0]
+            if base.endswith("-range"):
+                base = {"etag-range": "etag", "lm-range": "lm"}[base] if st in (200, 304) else base
             if st == 200:
                 if body != content[0]:
                     ctx.violation("200-with-old-or-wrong-content", case, f"step {step} {op}: body {body[:20]!r} current {content[0][:20]!r}")
@@ -192,7 +200,7 @@ def run_history(ctx, vfs, iface, app, url_path, file_path, seq, start_frac, zone
     return nontriv
 
 
-REGRESSION = [("adv1", "other-keepm", "lm"), ("adv2.5", "other-keepm", "both"), ("list-empty",), ("list-comma",), ("other", "both"), ("weaklist",), ("list-last",), ("other", "lm"), ("adv1", "touch", "etag"), ("same", "adv2.5", "etag0"),
+REGRESSION = [("etag-range",), ("lm-range",), ("other", "etag-range"), ("adv1", "other-keepm", "lm"), ("adv2.5", "other-keepm", "both"), ("list-empty",), ("list-comma",), ("other", "both"), ("weaklist",), ("list-last",), ("other", "lm"), ("adv1", "touch", "etag"), ("same", "adv2.5", "etag0"),
               ("other", "adv1", "other", "lm0"), ("adv0.4", "same", "both"), ("touch", "weak"), ("adv1", "same", "lm")]
 
 
@@ -232,7 +240,8 @@ def run(ctx):
                 # rotate targets so that every history runs on both interfaces and the Pages targets get their share
                 half = len(targets) // 2
                 for t in (targets[idx % half], targets[half + (idx // half) % half]):
-                    nt = run_history(ctx, vfs, t[0], t[1], t[2], t[3], seq, (0.0, 0.3, 0.9)[idx % 3], ZONES[(idx // 3) % len(ZONES)])
+                    nt = run_history(ctx, vfs, t[0], t[1], t[2], t[3], seq, (0.0, 0.3, 0.9)[idx % 3], ZONES[(idx // 3) % len(ZONES)],
+                                     epoch=(1_000_000.0, 4_000_000_000.0)[(idx // 7) % 2])
                     ctx.case_enum(nt)
         ctx.exhaustive = True
         ctx.extra["exhaustive_bound"] = f"all histories of length <= {maxlen} over {len(OPS)} operations (each on WSGI and ASGI, targets rotated)"
@@ -241,7 +250,7 @@ def run(ctx):
         for i in range(ctx.scale(2500, 150_000)):
             seq = tuple(rng.choice(OPS) for _ in range(rng.randrange(5, 8)))
             t = rng.choice(targets)
-            nt = run_history(ctx, vfs, t[0], t[1], t[2], t[3], seq, rng.choice([0.0, 0.3, 0.9]), rng.choice(ZONES))
+            nt = run_history(ctx, vfs, t[0], t[1], t[2], t[3], seq, rng.choice([0.0, 0.3, 0.9]), rng.choice(ZONES), epoch=rng.choice([1_000_000.0, 4_000_000_000.0]))
             ctx.case((t[0], t[2], seq) if nt else None)
         ctx.monitors["virtual-stat-calls"] = vfs.calls
     finally:
@@ -255,7 +264,8 @@ def replay(ctx, case):
         targets = setup(ctx)
         for t in targets:
             if t[0] == case["iface"] and t[2] == case["target"]:
-                run_history(ctx, vfs, t[0], t[1], t[2], t[3], tuple(case["ops"]), case.get("start_fraction", 0.0), case.get("process_time_zone", "UTC"))
+                run_history(ctx, vfs, t[0], t[1], t[2], t[3], tuple(case["ops"]), case.get("start_fraction", 0.0), case.get("process_time_zone", "UTC"),
+                            epoch=case.get("file_clock_epoch", 1_000_000.0))
                 break
         ctx.case(1)
     finally:
